@@ -28,9 +28,9 @@ func c08Init() {
 		for _, rc := range RawCases() {
 			c08Seeds = append(c08Seeds, rc.Patch)
 		}
-		if ents, err := os.ReadDir("/repo/examples"); err == nil {
+		if ents, err := os.ReadDir(filepath.Join(core.RepoDir(), "examples")); err == nil {
 			for _, e := range ents {
-				if b, err := os.ReadFile(filepath.Join("/repo/examples", e.Name())); err == nil {
+				if b, err := os.ReadFile(filepath.Join(core.RepoDir(), "examples", e.Name())); err == nil {
 					c08Seeds = append(c08Seeds, string(b))
 				}
 			}
